@@ -31,10 +31,6 @@ def run(pid, tier, replay=None, repo=None, quiet=False, write=True):
         prog = Program() if repo is None else Program(repo)
         chk = Check(pid, prog, tier=tier, inline_depth=6 if tier == "quick" else 8)
         registry.run_property(pid, chk)
-        if tier == "thorough" and replay is None:
-            from btlint import audit as audit_mod
-
-            audit = audit_mod.run_audit(pid, seed)
     except AnalysisError as e:
         aerr = "ANALYSIS-ERROR property=%s %s" % (pid, e)
     except Exception:
@@ -78,6 +74,20 @@ def run(pid, tier, replay=None, repo=None, quiet=False, write=True):
         print(aerr)
         if code == 0:
             return 2
+    if tier == "thorough" and replay is None:
+        if new:
+            # the self-test (silence on behaviour-preserving variants, sensitivity on seeded changes) is a statement about the checker on a tree that
+            # satisfies the property; on a tree that violates it every variant violates it too
+            print("AUDIT-NOTE property=%s self-test skipped: the tree itself violates the property" % pid)
+        else:
+            try:
+                from btlint import audit as audit_mod
+
+                audit = audit_mod.run_audit(pid, seed)
+            except Exception:
+                print("ANALYSIS-ERROR property=%s internal error in the self-test: %s" % (pid, traceback.format_exc().strip().splitlines()[-1]))
+                traceback.print_exc(file=sys.stderr)
+                return 2
     if audit is not None:
         for line in audit.get("lines", []):
             print(line)
